@@ -155,6 +155,57 @@ theorem index_by_handle_sound (d : ServerDecl) (hw : d.WF) (hi : NoIncludes d) (
 
 example : indexByHandle exDecl 0x14 = some 5 ∧ indexByHandle exDecl 0x13 = none := by decide
 
+/-! ### "… every handle that an attribute reports is the handle under which that attribute is
+    accessed": the index the server uses for a Read / Read Blob / Write / Prepare Write addressed to
+    handle `h` (`check_handle`) and for Find Information `h … h` -/
+
+/-- **access by handle is exact**: `check_handle` serves handle `h` with the attribute at index `i`
+    iff `i` is an attribute and `h` is exactly its handle; in particular a handle inside a hole of
+    the handle space (fixed handles), handle 0 and every handle behind the table are answered
+    Invalid Handle and never alias another attribute -/
+theorem access_by_handle_exact (d : ServerDecl) (hw : d.WF) (hi : NoIncludes d) (h i : Nat) :
+    accessIndex d h = some i ↔ (i < nAttrs d ∧ handleByIndex d i = h) := by
+  unfold accessIndex
+  constructor
+  · intro ha
+    by_cases h0 : h = 0
+    · rw [if_pos h0] at ha; cases ha
+    · rw [if_neg h0] at ha
+      exact index_by_handle_sound d hw hi h i ha
+  · intro ⟨hlt, he⟩
+    have hmem : handleByIndex d i ∈ handles d := List.mem_of_getElem? (handles_getElem d hi i hlt)
+    have hpos := (handles_nonzero d hw hi _ hmem).1
+    rw [if_neg (by omega), ← he]
+    exact index_handle_inverse d hw hi i hlt
+
+/-- no attribute is served for a handle that no attribute has -/
+theorem access_by_handle_hole (d : ServerDecl) (hw : d.WF) (hi : NoIncludes d) (h : Nat)
+    (hh : ∀ i, i < nAttrs d → handleByIndex d i ≠ h) : accessIndex d h = none := by
+  cases ha : accessIndex d h with
+  | none => rfl
+  | some i =>
+    have := (access_by_handle_exact d hw hi h i).mp ha
+    exact absurd this.2 (hh i this.1)
+
+/-- Find Information for the single handle `h > 0` lists the same attribute (or none) -/
+theorem find_info_single_exact (d : ServerDecl) (hw : d.WF) (hi : NoIncludes d) (h : Nat) (h0 : 0 < h) :
+    findInfoIndex d h = accessIndex d h := by
+  unfold findInfoIndex accessIndex indexByHandle
+  rw [if_neg (by omega)]
+  have hs := first_index_spec d hw hi h
+  cases hf : firstIndexByHandle d h with
+  | none => rfl
+  | some k =>
+    rw [hf] at hs
+    simp only at hs ⊢
+    by_cases he : handleByIndex d k = h
+    · rw [if_pos he, if_neg (by omega)]
+    · rw [if_neg he, if_pos (by omega)]
+
+-- non-vacuity: exDecl has holes (0x13 lies between two attributes); 0x14 is attribute 5
+example : accessIndex exDecl 0x14 = some 5 ∧ accessIndex exDecl 0x13 = none ∧ accessIndex exDecl 0 = none ∧
+    findInfoIndex exDecl 0x13 = none ∧ firstIndexByHandle exDecl 0x13 = some 5 := by decide
+
 /-! ### "… and honour requested fixed handles" (holds for every declaration, includes or not) -/
 
 theorem servicesHandleByIndex_append (sh si : Nat) (pre rest : List ServiceDecl) (k : Nat) :
